@@ -44,6 +44,8 @@ func (e *Env) state() *State {
 	return e.cur
 }
 
+var goIdentRe = regexp.MustCompile(`^[a-z][A-Za-z0-9_]*$`)
+
 var numRe = regexp.MustCompile(`^-?[0-9]+(\.[0-9]+)?$`)
 
 func (e *Env) eval(s *Sexp) (string, error) {
@@ -61,6 +63,9 @@ func (e *Env) evalT(s *Sexp) (string, types.Type, error) {
 	}
 	head := s.Head()
 	vc := e.vc
+	if head == "_" || head == "as" {
+		return s.String(), nil, nil // indexed / qualified identifier: (_ is C), (_ extract i j), (_ BitVec n), ...
+	}
 	switch head {
 	case "old":
 		if len(s.List) != 2 {
@@ -236,6 +241,41 @@ func (e *Env) evalT(s *Sexp) (string, types.Type, error) {
 		e.frame.useHeadVals = false
 		e.cur = savedCur
 		return t, ty, err
+	case "strlit":
+		// (strlit "text"): the Go string constant with that text (escapes \n \t handled)
+		if len(s.List) != 2 || s.List[1].IsL || !strings.HasPrefix(s.List[1].Atom, "\"") {
+			return "", nil, fmt.Errorf("(strlit \"...\") takes a quoted string")
+		}
+		txt, err := strconv.Unquote(s.List[1].Atom)
+		if err != nil {
+			return "", nil, err
+		}
+		return vc.strConst(txt), types.Typ[types.String], nil
+	case "ifaceas":
+		// (ifaceas TYPE expr): the interface value holding expr as a value of Go type TYPE
+		if len(s.List) != 3 || s.List[1].IsL {
+			return "", nil, fmt.Errorf("(ifaceas TYPE expr)")
+		}
+		var ty types.Type
+		for _, b := range types.Typ {
+			if b.Name() == s.List[1].Atom {
+				ty = b
+			}
+		}
+		if s.List[1].Atom == "byte" {
+			ty = types.Typ[types.Uint8]
+		}
+		if ty == nil {
+			ty = vc.eng.findType(e.pkgPath(), s.List[1].Atom)
+		}
+		if ty == nil {
+			return "", nil, fmt.Errorf("(ifaceas %s ...): unknown type", s.List[1].Atom)
+		}
+		t, _, err := e.evalT(s.List[2])
+		if err != nil {
+			return "", nil, err
+		}
+		return vc.makeIface(SV{T: t, Typ: ty}, ty).T, nil, nil
 	case "fresh":
 		t, _, err := e.evalT(s.List[1])
 		if err != nil {
@@ -431,6 +471,10 @@ func (e *Env) atom(a string) (string, types.Type, error) {
 		return t, ty, nil
 	}
 	if strings.HasPrefix(a, "phi:") || strings.HasSuffix(strings.SplitN(a, ".", 2)[0], "@0") || (strings.Contains(a, ":") && !strings.HasPrefix(a, ":")) {
+		return "", nil, fmt.Errorf("%s is not in scope here", a)
+	}
+	if goIdentRe.MatchString(a) {
+		// looks like a Go variable but is none here: an error, not an SMT symbol
 		return "", nil, fmt.Errorf("%s is not in scope here", a)
 	}
 	return a, nil, nil
